@@ -632,17 +632,18 @@ func (c *Ctx) Run(calls []Event) []Event {
 		ev = append(ev, Do(h, a))
 	}
 	c.Hist(ev)
-	if c.DeferredOp != "" && len(ev) > 0 {
-		c.deferredRun(calls, ev)
+	if c.DeferredOp != "" && len(ev) > 0 && ev[len(ev)-1]["panic"] == nil {
+		// the same final observation is taken of the run that was observed all along ...
+		var fin Event
+		if p, _ := guard(func() { fin = Do(h, Event{"op": c.DeferredOp}) }); !p && fin != nil && fin["all"] != nil {
+			c.deferredRun(calls, fin["all"])
+		}
 	}
 	return ev
 }
 
-func (c *Ctx) deferredRun(calls []Event, ev []Event) {
-	last, ok := ev[len(ev)-1]["all"]
-	if !ok || ev[len(ev)-1]["panic"] != nil {
-		return
-	}
+// ... and of a second execution on fresh objects in which nothing is read before the end
+func (c *Ctx) deferredRun(calls []Event, last interface{}) {
 	h := &HState{Obj: map[string]interface{}{}}
 	var fin Event
 	p, _ := guard(func() {
